@@ -57,6 +57,14 @@ T = {
     text="(a) Generated formulas with hostile names (incl. | and backslash, consecutive let-like names) are printed by both SMT-LIB printers through smtlibscript_from_formula and parsed back in the same environment: the result must be the very same object (array values: equal after collapsing store chains). (b) Generated scripts over the serialisable commands with names / ids needing quoting are parsed, re-serialised (both printers) and re-parsed: the command lists must be equal (formulas by identity, numeric option values by value, definitions up to parameter renaming). (c) Formulas of the human-readable fragment: HRParser.parse(f.serialize()) must parse, have the same type, reference value and the same structure up to n-ary grouping.",
     note="Trusted: hash-consing (C04) for identity; vf/refsem.py for (c). Symbols named like a delimiter ('(' , ')' , leading double quote) are an open finding (tokenizer) and excluded by class; String-sorted array-value texts are outside the HR fragment.",
     technique="round-trip property testing (print-parse identity, parse-serialize-parse equality, HR round trip with reference evaluation)"),
+ "C14": dict(level="exploration", design="4/C14",
+    text="A generated history of 5-25 calls of 21 services over formulas that share sub-DAGs with a probe formula is followed by probe calls of every service on the probe and on its sub-terms; a twin fresh environment runs only the probes. Results must be equal under an AC-canonical, fresh-name-agnostic key (SMT-LIB text by what it denotes); repeated calls of services creating no fresh symbol must return the same object; constructor calls with out-of-domain Python values and re-declarations with equal sorts from another type manager must have a history-independent outcome.",
+    note="Trusted: the canonical key of vf/twin.py (all fresh-looking names are one placeholder: sound, weaker than a bijection); vf/smtref.py for the meaning of printed text.",
+    technique="metamorphic / twin-environment property testing over generated call histories"),
+ "C15": dict(level="fault_enumeration", design="4/C15",
+    text="Failing calls of 10 kinds are injected into generated call histories (ill-typed construction; ill-typed substitution with the offending key ranging over all symbols of the traversed formula; unsupported operator reached at every nesting depth inside cnf / Shannon QE; unknown size measure; undefined symbol; malformed or ill-typed SMT-LIB given to a long-lived parser inside let / quantifier / define-fun / mid-script; non-constant array index; function interpretation with free variables). A twin environment runs the history without the calls that raised; then the complete list of 21 probe services (+ the long-lived parser) runs on both and every outcome must be equal.",
+    note="A call is a failing call iff it raises in the environment under test; failure positions are enumerated through the choice of the offending symbol / depth, not by instrumenting walkers. Symbols that a failed script legitimately created in the environment are not reused by the probes with another sort.",
+    technique="fault injection into generated histories with a twin environment as oracle"),
 }
 
 checks, na = [], []
